@@ -1,4 +1,5 @@
 import EmmyVerif.Lemmas.FlowLoopSound
+import EmmyVerif.Lemmas.FlowLoopExit
 /-!
 # C41 — narrowing after loops (partial; the pinned tree violates the full statement)
 
@@ -78,6 +79,36 @@ theorem C41_partial_inert (p : LProg) (S : List (Nat × TName)) (hin : p.body.lo
     ∃ t, (id, x, t) ∈ p.typeAt ∧ t.has v = true :=
   C41_partial p (fun _ => false) S hin hS fuel obs h id x v hv rfl
 
+/-- **C41_entered_loop_sound.** The loop forms whose exit the analyzer merges — `while true do … break … end`, a
+numeric `for` whose literal bounds are statically entered, `repeat … until c` without `break` — are sound for a
+variable `x` their body assigns, provided the loop does not read `x` (no condition on `x`, no `y = x`, no probe of `x`
+inside the loop; `x` is not assigned in a nested loop; every `x = y` in the body has `y ∉ W`) — `loopOK2 W S x`, decidable.
+`W` contains the other loop-assigned variables as in `C41_partial`. For every such program, every fuel and every
+terminating run, every reached probe of `x` (in particular every probe **after** such a loop) and of every other
+variable outside `W` has its value in the inferred type.
+
+Proof (`Lemmas/FlowLoopExit.lean`): invariant over the iteration count `ρ_k = ρ₁ ∨ SoundPt W ρ_k out` (`out` = abstract
+end of the body bound from the pre-loop state), non-interference of the body in `x` (`LStmt.ni`), and the fact that the
+after-loop label merges every `break` edge with `out` (for `repeat`: the true edges of `until c` bound at `out`).
+Missing for the full statement: loops that read `x` (open finding C41-no-back-edge), `while c` / generic `for`
+(open findings), and `repeat` bodies with `break` (the after-label does not contain `out` itself, a per-variable
+merge invariant would be needed). -/
+theorem C41_entered_loop_sound (p : LProg) (W : Nat → Bool) (S : List (Nat × TName)) (x : Nat)
+    (hxS : S.any (fun q => q.1 == x) = false) (hW : p.body.loopOK2 W S x = true)
+    (hS : storedSafe p S = true) (fuel : Nat) (obs : List Obs) (h : p.run fuel = some obs)
+    (id z : Nat) (v : Val) (hv : (id, z, v) ∈ obs) (hz : W z = false) :
+    ∃ t, (id, z, t) ∈ p.typeAt ∧ t.has v = true := by
+  simp only [storedSafe, Bool.and_eq_true, List.all_eq_true, beq_iff_eq] at hS
+  unfold LProg.run at h
+  cases hr : LBlock.exec fuel p.initEnv p.body with
+  | none => simp [hr] at h
+  | some r =>
+    simp only [hr, Option.map_some, Option.some.injEq] at h
+    subst h
+    have hs := (LBlock.sound2 (W := W) (S := S) p.decls.length p.declTy x hxS fuel p.body p.initPt p.initEnv r hW hS.1
+      (by simp [LProg.initEnv]) (fun q hq => hS.2 q hq) (initPtL_sound W p) hr).obs
+    exact hs (id, z, v) hv hz
+
 /-- A loop that assigns only variables of `W` leaves every other variable as it was (so for them "the pre-loop type
 whenever the body may run zero times" and "every type the body can assign" coincide). -/
 theorem loop_agree (W : Nat → Bool) (fuel : Nat) (ρ : Env) (s : LStmt) (r : Out) (hn : s.assignsIn W = true)
@@ -152,5 +183,24 @@ def exMixed : LProg :=
 example : exMixed.body.loopOK (fun x => x == 0) = true := by decide
 example : storedSafe exMixed [] = true := by decide
 example : exMixed.run 20 = some [(0, 1, .str 1), (1, 1, .str 1)] := by decide
+
+/-- `local v0 = nil; local v1 = false; while true do if v1 then break end; v1 = true; v0 = "s1" end; p(0, v0)
+for _i = 1, 2 do v0 = 2 end; p(1, v0); repeat v0 = nil until v1; p(2, v0)`: `v0` is assigned in three entered loops that do
+not read it (`v1` is read inside the first loop, so it is in `W`) -/
+def exEntered : LProg :=
+  ⟨[some .nil, some (.bool false)],
+   .cons (.whileTrue (.cons (.breakIf (.leaf (.truthy 1)))
+            (.cons (.assign 1 (.bool true)) (.cons (.assign 0 (.str 1)) .nil))))
+   (.cons (.probe 0 0)
+   (.cons (.forNum 1 2 (.cons (.assign 0 (.int 2)) .nil))
+   (.cons (.probe 1 0)
+   (.cons (.repeatUntil (.cons (.assign 0 .nil) .nil) (.leaf (.truthy 1)))
+   (.cons (.probe 2 0) .nil)))))⟩
+
+example : exEntered.body.loopOK2 (fun z => z == 1) [] 0 = true := by decide
+example : exEntered.body.loopOK (fun z => z == 1) = false := by decide
+example : storedSafe exEntered [] = true := by decide
+example : exEntered.run 30 = some [(0, 0, .str 1), (1, 0, .int 2), (2, 0, .nil)] := by decide
+example : exEntered.typeAt = [(0, 0, [.strC 1, .nil]), (1, 0, [.intC 2]), (2, 0, [.nil])] := by decide
 
 end C41
